@@ -2,6 +2,7 @@
 From Coq Require Import List Arith Lia Bool String.
 Import ListNotations.
 From SP Require Import Skel Gen Expected ExpectedCones Wiring Wiring2 Ready.
+From SP Require SinkDrain.
 
 (* T1: the wiring code *)
 Theorem C16_code_conforms :
@@ -105,6 +106,34 @@ Theorem C16_cone_conforms :
   && strs_eqb cone_InPort_Disconnect exp_cone_InPort_Disconnect = true.
 Proof. vm_compute. reflexivity. Qed.
 
+(* ---- the sink: out-ports nobody consumes (dangling, or cut off by RunTo) are drained ----
+   SinkDrain: Sink.Run reads its file in-port and its parameter in-port at the same time; an upstream that feeds both (a
+   combinator with dangling out-ports) sends in an order of its own and closes only after its last send.  With both ports read
+   concurrently every state short of the end can move, whatever the order and the buffer sizes, and every step uses up the
+   measure ... *)
+Theorem C16_sink_concurrent_progress : forall capf capp s, 1 <= capf -> 1 <= capp ->
+  SinkDrain.qf s <= capf -> SinkDrain.qp s <= capp -> (SinkDrain.closed s = true -> SinkDrain.plan s = []) ->
+  SinkDrain.final s = false -> SinkDrain.enabled capf capp true s = true.
+Proof. exact SinkDrain.concurrent_progress. Qed.
+
+Theorem C16_sink_terminates : forall capf capp s a s', (SinkDrain.closed s = true -> SinkDrain.plan s = []) ->
+  SinkDrain.step capf capp true s a = Some s' ->
+  SinkDrain.measure s' < SinkDrain.measure s /\ (SinkDrain.closed s' = true -> SinkDrain.plan s' = []).
+Proof. exact SinkDrain.concurrent_step_decreases. Qed.
+
+Theorem C16_sink_nonvacuous :
+  exists s, SinkDrain.run 1 1 true (SinkDrain.init [false; false; true; false])
+              [SinkDrain.Send; SinkDrain.RecvP; SinkDrain.Send; SinkDrain.RecvP; SinkDrain.Send; SinkDrain.Send; SinkDrain.RecvF; SinkDrain.RecvP; SinkDrain.Close] = Some s
+            /\ SinkDrain.final s = true.
+Proof. exact SinkDrain.concurrent_example. Qed.
+
+(* ... a sink that read the file port to its end before turning to the parameter port would be stuck, for every buffer size, under
+   an upstream that sends one more parameter value than the buffer holds before its first file *)
+Theorem C16_sink_in_turn_refuted : forall capp, exists l s,
+  SinkDrain.run 1 capp false (SinkDrain.init (repeat false (S capp) ++ [true])) l = Some s
+  /\ SinkDrain.enabled 1 capp false s = false /\ SinkDrain.final s = false.
+Proof. exact SinkDrain.in_turn_stuck. Qed.
+
 Print Assumptions C16_code_conforms.
 Print Assumptions C16_refuses_before_start.
 Print Assumptions C16_ready_flag.
@@ -119,3 +148,7 @@ Print Assumptions C16_unready_refused.
 Print Assumptions C16_ready_runs.
 Print Assumptions C16_driver_unchecked_refuted_before_repair.
 Print Assumptions C16_cone_conforms.
+Print Assumptions C16_sink_concurrent_progress.
+Print Assumptions C16_sink_terminates.
+Print Assumptions C16_sink_nonvacuous.
+Print Assumptions C16_sink_in_turn_refuted.
